@@ -11,6 +11,18 @@ using namespace vf;
 static std::string B(const std::string& s) { std::string o = "["; for (size_t i = 0; i < s.size(); ++i) o += std::string(i ? "," : "") + std::to_string((unsigned char)s[i]); return o + "]"; }
 static std::string unhex(const std::string& h) { std::string o; for (size_t i = 0; i + 1 < h.size(); i += 2) o.push_back((char)std::stoi(h.substr(i, 2), nullptr, 16)); return o; }
 static std::string message(size_t L) { std::string m(L, 0); for (size_t i = 0; i < L; ++i) m[i] = (char)((i * i * 31 + i * 7 + L * 13 + 5) & 0xFF); return m; }
+// long messages (2^29 bytes and more: bit counts beyond 32 bits): a pattern with a prime period, so that the reference side can feed whole periods to hashlib
+static const size_t BIGP = 1048573;
+static std::string big_message(size_t L) { std::string m(L, 0); size_t r = 0; for (size_t i = 0; i < L; ++i) { m[i] = (char)((r * 131 + 7) & 0xFF); if (++r == BIGP) r = 0; } return m; }
+template <class H, class F1>
+static void digest_big_event(Out& out, const char* algo, const std::string& msg, const std::vector<size_t>& chunks, const std::string& expected, F1 hex_p) {
+    H a; size_t p = 0; bool alt = false;
+    for (size_t c : chunks) { if (alt) a.process(tlx::string_view(msg.data() + p, c)); else a.process(msg.data() + p, (std::uint32_t)c); alt = !alt; p += c; }
+    std::string raw = a.digest();
+    std::string os = "[" + B(hex_p(msg.data(), (std::uint32_t)msg.size())) + "]";
+    Ev e("digest_big"); e.str("algo", algo).num("len_mib", (long long)(msg.size() >> 20)).raw("raw", B(raw)).raw("oneshot_hex", os).raw("expected", B(expected)).boolean("partition", p == msg.size());
+    e.emit(out);
+}
 static std::string u64le(uint64_t v) { std::string o(8, 0); for (int i = 0; i < 8; ++i) o[i] = (char)((v >> (8 * i)) & 0xFF); return o; }
 
 template <class H, class F1, class F2, class F3, class F4>
@@ -48,6 +60,14 @@ int main(int argc, char** argv) {
                                                                  [](const void* p, std::uint32_t n) { return tlx::sha256_hex_uc(p, n); }, [](sv s) { return tlx::sha256_hex_uc(s); });
             else digest_event<tlx::SHA512>(out, "sha512", msg, ch, ex, [](const void* p, std::uint32_t n) { return tlx::sha512_hex(p, n); }, [](sv s) { return tlx::sha512_hex(s); },
                                            [](const void* p, std::uint32_t n) { return tlx::sha512_hex_uc(p, n); }, [](sv s) { return tlx::sha512_hex_uc(s); });
+        } else if (kind == 'G') {
+            std::string algo; size_t L, k; is >> algo >> L >> k; std::vector<size_t> ch(k); for (auto& c : ch) is >> c; std::string exp; is >> exp;
+            static std::string bigmsg; if (bigmsg.size() != L) bigmsg = big_message(L);
+            std::string ex = unhex(exp);
+            if (algo == "md5") digest_big_event<tlx::MD5>(out, "md5", bigmsg, ch, ex, [](const void* p, std::uint32_t n) { return tlx::md5_hex(p, n); });
+            else if (algo == "sha1") digest_big_event<tlx::SHA1>(out, "sha1", bigmsg, ch, ex, [](const void* p, std::uint32_t n) { return tlx::sha1_hex(p, n); });
+            else if (algo == "sha256") digest_big_event<tlx::SHA256>(out, "sha256", bigmsg, ch, ex, [](const void* p, std::uint32_t n) { return tlx::sha256_hex(p, n); });
+            else digest_big_event<tlx::SHA512>(out, "sha512", bigmsg, ch, ex, [](const void* p, std::uint32_t n) { return tlx::sha512_hex(p, n); });
         } else {
             std::string keyhex, exp; size_t L, align; is >> keyhex >> L >> align >> exp;
             std::string key = unhex(keyhex), msg = message(L);
